@@ -22,12 +22,11 @@ pub fn prop() -> Prop {
             Sub::tape("circle", 16, 100_000, 5_000_000, |d, cx| run(d, cx, 1)),
             Sub::tape("ellipse", 16, 100_000, 5_000_000, |d, cx| run(d, cx, 2)),
             Sub::tape("rounded_rectangle", 28, 140_000, 7_000_000, |d, cx| run(d, cx, 3)),
-            Sub::tape("large", 28, 1_500, 75_000, |d, cx| { let k = d.u(0, 3); run(d, cx, k + 100) }),
+            Sub::tape("large", 28, 3_000, 150_000, |d, cx| { let k = d.u(0, 3); run(d, cx, k + 100) }),
         ],
     }
 }
 
-type C = Rgb888;
 
 struct Outcome {
     fill_px: usize,
@@ -110,6 +109,16 @@ macro_rules! check_closed {
 }
 
 fn run(d: &mut Dec, cx: &mut Cx, kind: u32) -> Res {
+    // colour type: auxiliary word 6 (Rgb888 for a zero word)
+    match d.aux_u(6, 0, 7) {
+        0..=3 => run_c::<Rgb888>(d, cx, kind),
+        4 | 5 => run_c::<BinaryColor>(d, cx, kind),
+        6 => run_c::<Gray8>(d, cx, kind),
+        _ => run_c::<Rgb565>(d, cx, kind),
+    }
+}
+
+fn run_c<C: Col>(d: &mut Dec, cx: &mut Cx, kind: u32) -> Res {
     let big = d.ratio(1, 4);
     let dom = ShapeDom { r: 8, max: if big { 60 } else { 24 } };
     // kinds >= 100: the same four shapes at 100..=400 px with strokes up to 60 (sub-check "large")
@@ -118,7 +127,8 @@ fn run(d: &mut Dec, cx: &mut Cx, kind: u32) -> Res {
     } else {
         (gen::shape_of_kind(d, kind, dom), gen::style::<C>(d, 12))
     };
-    cx.describe(|| format!("{:?} {}", shape, gen::style_desc(&style)));
+    let shape = shape.translate(gen::far_offset(d));
+    cx.describe(|| format!("{:?} {} [{}]", shape, gen::style_desc(&style), C::NAME));
     cx.class(match style.stroke_alignment {
         StrokeAlignment::Inside => "inside",
         StrokeAlignment::Center => "center",
